@@ -1073,3 +1073,72 @@ def rule_p7(repo, res):
                                 "the caller's module_class / group_class / object_class) the copy has another class than the original, "
                                 "and equality (which requires the same class) fails", where=f"pvl/collections.py:{x.lineno}"))
     res.floor("copy hooks of container classes", n, 2)
+
+
+def rule_none_sentinel(repo, res):
+    """NONE-SENTINEL: whether a key is present is decided by membership (`key in self`, KeyError from the storage), never
+    by comparing a looked-up value with None: None is an ordinary value of a label (PVL NULL).  In the container classes a
+    name bound to `<x>.get(key)` / `<x>.get(key, None)` (no other default) that is then tested with `is None` / `is not
+    None` / `== None` / plain truthiness as the condition of a write treats a key whose (first) value is None as missing."""
+    n = 0
+    for cname, cnode in repo.module("collections").classes.items():
+        if cname not in repo.classes:
+            continue
+        mro = repo.mro(cname)
+        if not any(b in mro for b in (CONTAINER, "MutableMappingSequence")) and cname != CONTAINER:
+            continue
+        for fn in [x for x in cnode.body if isinstance(x, ast.FunctionDef)]:
+            looked = {}
+            for a in ast.walk(fn):
+                if isinstance(a, ast.Assign) and isinstance(a.value, ast.Call) and isinstance(a.value.func, ast.Attribute) \
+                        and a.value.func.attr == "get" and 1 <= len(a.value.args) <= 2 and not a.value.keywords \
+                        and (len(a.value.args) == 1 or (isinstance(a.value.args[1], ast.Constant) and a.value.args[1].value is None)):
+                    for t in a.targets:
+                        if isinstance(t, ast.Name):
+                            looked[t.id] = a
+            for c in ast.walk(fn):
+                hit = None
+                if isinstance(c, ast.Compare) and len(c.ops) == 1 and isinstance(c.ops[0], (ast.Is, ast.IsNot, ast.Eq, ast.NotEq)):
+                    sides = [c.left, c.comparators[0]]
+                    if any(isinstance(x, ast.Constant) and x.value is None for x in sides):
+                        nm = [x for x in sides if isinstance(x, ast.Name) and x.id in looked]
+                        call = [x for x in sides if isinstance(x, ast.Call) and isinstance(x.func, ast.Attribute) and x.func.attr == "get"
+                                and 1 <= len(x.args) <= 2 and (len(x.args) == 1 or (isinstance(x.args[1], ast.Constant) and x.args[1].value is None))]
+                        if nm or call:
+                            hit = c
+                if hit is not None:
+                    n += 1
+                    res.oblige("NONE-SENTINEL", f"{cname}.{fn.name}: `{norm(hit, 50)}` does not stand for 'the key is missing'", ok=False)
+                    res.add(Finding("NONE-SENTINEL", f"{cname}.{fn.name}", f"`{norm(hit, 50)}`",
+                                    f"{cname}.{fn.name} takes `{norm(hit, 60)}` -- the result of a get() without a private default -- for "
+                                    "'the key is not there': a key whose first value is None (a PVL NULL) is treated as missing, and the "
+                                    "write that follows replaces it and drops its later occurrences", where=f"pvl/collections.py:{hit.lineno}"))
+    res.oblige("NONE-SENTINEL", "no container method decides the presence of a key by comparing a get() result with None", ok=n == 0)
+
+
+def rule_p8(repo, res):
+    """P8: every copy route (copy(), the reduction used by copy.copy / deepcopy / pickle, the constructor) rebuilds a
+    container by replaying its pairs through __init__ -> extend -> append, so these three accept every pair any other
+    mutator accepts: none of them raises depending on the key or the value (extend may refuse a malformed *argument
+    list*).  A refusal added to append alone makes a container that insert() filled impossible to copy."""
+    ci = repo.cls(CONTAINER)
+    n = 0
+    for name in ("append",):
+        if name not in ci.methods:
+            raise AnalysisError(f"anchor vanished: method {CONTAINER}.{name}")
+        fn = ci.methods[name]
+        params = [a.arg for a in fn.args.args if a.arg != "self"]
+        from . import flow
+        for st, conds in flow.stmts_with_conds(fn.body):
+            if isinstance(st, ast.Raise):
+                n += 1
+                reads = {x.id for (t, pol) in conds if isinstance(t, ast.AST) for x in ast.walk(t) if isinstance(x, ast.Name)}
+                bad = bool(reads & set(params)) or not conds
+                res.oblige("P8", f"{CONTAINER}.{name}: `{norm(st, 50)}` does not depend on the key or the value", ok=not bad)
+                if bad:
+                    res.add(Finding("P8", f"{CONTAINER}.{name}", f"`{norm(st, 50)}`",
+                                    f"{CONTAINER}.{name} refuses some pairs (`{norm(st, 60)}` under a test of {sorted(reads & set(params))}): "
+                                    "the copy routes replay every pair through append, so a container that holds such a pair (placed by "
+                                    "insert / insert_before / insert_after, which accept it) cannot be copied, deep-copied or pickled",
+                                    where=f"pvl/collections.py:{st.lineno}"))
+    res.oblige("P8", f"{CONTAINER}.append accepts every pair ({n} raise statement(s) examined)", ok=True, nontrivial=False)
